@@ -83,10 +83,16 @@ PATTERNS = [
 ]
 
 
-def build(ch):
+FAR = {'near': None, 'far-1e6': (4.0e6, -3.0e6, 2.0e6), 'far-1e8': (-2.0e8, 1.0e8, 3.0e7)}
+
+
+def build(ch, allow_far=False):
     d = HDeck('c07 hex lattice')
     A, phi = HEXES[ch.choose('hexagon', list(HEXES))]
     Q = AXES[ch.choose('axis', list(AXES))]
+    if allow_far:
+        # the same deck written millions of centimetres from the origin (all its motions are translations)
+        d.shift = FAR[ch.choose('placement', list(FAR))]
     nplanes = ch.choose('planes', [6, 8])
     start = ch.choose('start-side', [0, 1, 2, 3, 4, 5])
     chir = ch.choose('chirality', [1, -1])
@@ -270,7 +276,7 @@ def build_macro(ch):
 
 
 def build_single(ch):
-    return build(c06.Preset(ch, {'replica': 0}))
+    return build(c06.Preset(ch, {'replica': 0}), allow_far=True)
 
 
 def build_replica(ch):
